@@ -1,6 +1,21 @@
 """C12 - decided on the request-level model: proofs in coq/theories/Props/C12.v, predicate p_c12
-(coq/theories/Spec/Preds.v) evaluated on the implementation's observations, projection facets 13,155,156."""
+(coq/theories/Spec/Preds.v) evaluated on the implementation's observations, projection facets 13,155,156;
+plus the fault enumeration of the one-time-password and second-factor logins (all six variants: with and without the
+lock module, whose hook otherwise persists the consumption on the way) - a login that goes through under a fault has
+recorded what it consumed, so that the value does not work a second time."""
+import vlib
 import worldprop
 
-P = worldprop.WorldProp("C12", "p_c12", [('onetime', 200, 4000), ('twofactor', 150, 3000)], {13,155,156})
+SIZES = dict(onetime=(200, 4000), twofactor=(150, 3000))
+
+
+class C12(worldprop.WorldProp):
+    def gen_fn(self, binp, prof, thorough):
+        if prof != "faults":
+            n = SIZES[prof]
+            return worldprop.generate(binp, prof, n[1] if thorough else n[0], 60 if thorough else 30, vlib.seed(), "C12_" + prof)
+        return worldprop.fault_flows(binp, ["otp-login", "totp-validate", "sms-validate"], thorough, "c12")
+
+
+P = C12("C12", "p_c12", [(k, v[0], v[1]) for k, v in SIZES.items()] + [("faults", 0, 0)], {13, 155, 156})
 run, replay = P.run, P.replay
